@@ -65,7 +65,7 @@ static int n_src_reads, n_media_reads, n_media_writes, n_alloc, n_free, n_malloc
 
 #ifdef EXPERIMENT
 extern "C" { void verif_probe1(bool); void verif_probe2(bool); void verif_probe3(bool); void verif_probe4(bool); void verif_probe5(bool); void verif_probe6(bool); void verif_probe7(bool); void verif_probe8(bool); void verif_probe9(bool); }
-static bool probe_pool_null(); static bool probe_vptr(); static bool probe_srcfs_null();
+static bool probe_pool_null(); static bool probe_vptr(); static bool probe_srcfs_null(); static bool probe_srcfile();
 #define PROBES(a,b,c) verif_probe##a(probe_pool_null()); verif_probe##b(probe_vptr()); verif_probe##c(probe_srcfs_null());
 #else
 #define PROBES(a,b,c)
@@ -96,6 +96,9 @@ NOINL static ssize_t src_read(const iovec* iov, int iovcnt, off_t offset)
 {
     n_src_reads++;
     PROBES(4,5,6)
+#ifdef EXPERIMENT
+    verif_probe7(probe_srcfile());
+#endif
     CHECK(iovcnt >= 0 && iovcnt <= MAXV, "harness bound: a source read has at most MAXV segments");
     ASSUME(iovcnt >= 0 && iovcnt <= MAXV);
     uint64_t total = vec_total(iov, iovcnt);
@@ -280,6 +283,8 @@ struct Store : public ICacheStore {
         cached_size_ = known_size;
     }
     bool no_range_locked() { return range_lock_.m_index.empty(); }
+    // rt/c17_rbtree.c: the std::set of this RangeLock holds at most one element (checked there)
+    void* lock_set_header() { return (void*)range_lock_.m_index.end()._M_node; }
 };
 
 // ---- memory handed to the code under test --------------------------------------------------------------------------
@@ -338,6 +343,7 @@ NOINL void verif_c17_free(void* p)
 }
 }
 
+extern "C" char* verif_c17_single_header;
 // ---- objects --------------------------------------------------------------------------------------------------------
 static Raw<SrcFile> srcS;
 static Raw<Store> storeS;
@@ -387,6 +393,7 @@ static void world_init()
     }
     for (int i = 0; i < SRCMAX; i++) { uint8_t g = nondet_u8(); MEDIA[i] = PRESENT[i / PAGE] ? SRC[i] : g; }
     ST->setup(&srcS.v, &allocS.v, known ? (off_t)SIZE : 0);
+    verif_c17_single_header = (char*)ST->lock_set_header();
 }
 
 template<int RD> static inline __attribute__((always_inline)) void one_read()
@@ -493,10 +500,12 @@ void harness_prefetch()
 }
 }
 #ifdef EXPERIMENT
-struct PStore : public Store { bool pn() { return pool_ == nullptr; } bool sn() { return src_fs_ == nullptr; } };
+struct PStore : public Store { bool pn() { return pool_ == nullptr; } bool sn() { return src_fs_ == nullptr; } bool sf() { return src_file_ == (IFile*)&srcS.v; } };
+static bool probe_srcfile() { return ((PStore*)&storeS.v)->sf(); }
 static bool probe_pool_null() { return ((PStore*)&storeS.v)->pn(); }
 static bool probe_srcfs_null() { return ((PStore*)&storeS.v)->sn(); }
-static bool probe_vptr() { return *(void**)&storeS.v != nullptr; }
+static Raw<Store> storeRef; static bool probe_vptr() { return *(void**)&storeS.v == *(void**)&storeRef.v; }
+static bool probe_srcfile();
 extern "C" void harness_exp()
 {
     world_init();
@@ -523,7 +532,7 @@ extern "C" void harness_exp()
     CHECK(r == 0, "exp");
 #elif EXPERIMENT == 5
     ASSUME(ST->get_actual_size() != 0);
-    PROBES(7,8,9)
+    new (&storeRef.v) Store;
     static iovec V[1]; static uint8_t b[2];
     V[0].iov_base = b; V[0].iov_len = 2;
     ssize_t r = ST->preadv2(V, 1, 0, 0);
